@@ -72,6 +72,8 @@ const (
 	// (kinds added later go below: recorded plans hold kind numbers)
 	TxSelfDestructLoop // one transaction calls a self-destructing contract three times (value 0, callvalue, 0)
 	TxFundDealloc      // plain transfer to an address of the HF4 de-allocation list
+	TxBalanceArith     // a contract that reads balances (its own, the caller's, calldata[0]'s) and does arithmetic on the values
+	TxFundCreate       // a contract pays its call value to the address its next CREATE will get, then CREATEs there (init code fails, reverts or succeeds)
 	numTxKinds
 )
 
@@ -109,6 +111,8 @@ type Universe struct {
 	TxMeta    [][]TxRecipe
 	curMeta   []TxRecipe
 	Contracts map[string]common.Address
+	// the address the "fundcreate" contract's next CREATE will produce on the branch being built
+	fcTarget common.Address
 }
 
 // Contract templates (hand-assembled; each has a known effect).
@@ -127,6 +131,21 @@ var (
 		"6000600060206000" + "34" + "6000355af150" +
 		"6000600060206000" + "6000" + "6000355af150" + "00")
 )
+
+// the value BALANCE pushes is used as the in-place operand of arithmetic, dropped, and followed by
+// fresh pushes (which recycle dropped stack words): none of that may change an account
+var codeBalanceArith = common.FromHex("" +
+	"3031800150" + // ADDRESS BALANCE DUP1 ADD POP
+	"3331600101" + "50" + // CALLER BALANCE PUSH1 1 ADD POP
+	"6001303101" + "50" + // PUSH1 1 ADDRESS BALANCE ADD POP
+	"600750" + // PUSH1 7 POP
+	"600035316003" + "0250" + // calldata[0] BALANCE PUSH1 3 MUL POP
+	"60093331" + "0350" + // PUSH1 9 CALLER BALANCE SUB POP
+	"6005600b01" + "5000") // PUSH1 5 PUSH1 11 ADD POP STOP
+
+// CALL(gas, calldata[0], callvalue, 0,0,0,0); mem[0:32] = calldata[32:64]; CREATE(0, 0, calldata[64])
+var codeFundCreate = common.FromHex("600060006000600034600035" + "5af150" +
+	"60206020600037" + "60403560006000f0" + "5000")
 
 func codeLog(n int) []byte {
 	// CALLDATACOPY(0,0,calldatasize); push topic n..1 from mem[32*i]; LOGn(0,32,topics...)
@@ -222,6 +241,8 @@ func Build(r *Recipe) (u *Universe, err error) {
 	add("callrevert", codeCallThenRevert, 0)
 	add("extsize", common.FromHex("6000353b60005500"), 0) // SSTORE(0, EXTCODESIZE(calldata[0]))
 	add("sdloop", codeSelfDestrLoop, 0)
+	add("balarith", codeBalanceArith, 5)
+	add("fundcreate", codeFundCreate, 0)
 	for n := 0; n <= 4; n++ {
 		add(fmt.Sprintf("log%d", n), codeLog(n), 0)
 		add(fmt.Sprintf("logb%d", n), codeLog(n), 0) // second emitter with the same behaviour
@@ -384,6 +405,14 @@ func (u *Universe) makeTx(tr *TxRecipe, nonce uint64, number *big.Int) (*types.T
 	case TxFundDealloc:
 		gas = 21000
 		tx = types.NewTransaction(nonce, common.HexToAddress(HF4Addrs[int(tr.A)%4]), val, gas, price, nil)
+	case TxBalanceArith:
+		gas = 90000
+		tx = types.NewTransaction(nonce, u.Contracts["balarith"], val, gas, price, addrWord(to))
+	case TxFundCreate:
+		gas = 250000
+		init := [][]byte{{0xfe}, common.FromHex("60006000fd"), common.FromHex("600060005360016000f3")}[tr.B%3]
+		data := append(addrWord(u.fcTarget), common.RightPadBytes(init, 32)...)
+		tx = types.NewTransaction(nonce, u.Contracts["fundcreate"], val, gas, price, append(data, word(uint64(len(init)))...))
 	case TxCreateFail:
 		gas = 150000
 		// direct contract creation whose init code reverts / runs an invalid opcode
@@ -414,6 +443,8 @@ func (u *Universe) fillBlock(g *core.BlockGen, id int, br *BlockRecipe, parent *
 		if _, ok := nonces[from]; !ok {
 			nonces[from] = g.TxNonce(u.Addrs[from])
 		}
+		fc := u.Contracts["fundcreate"]
+		u.fcTarget = crypto.CreateAddress(fc, g.TxNonce(fc))
 		tx, gas := u.makeTx(tr, nonces[from], number)
 		if gas > gasBudget {
 			u.Skipped++
